@@ -229,24 +229,65 @@ impl Ctx {
         Ctx { dir }
     }
 
-    /// request = list of operations (a history)
+    /// request = list of operations (a history), or (9 ops1 ops2): ops1, save as STAM CSV, the
+    /// modifications ops2 on the store in memory, save again in the same place
     pub fn exec(&self, req: &Sx) -> (Sx, Vec<Sx>, bool) {
         let mut store = new_store();
         let mut nontrivial = false;
-        for op in req.list() {
-            let r = apply(&mut store, op);
-            if op.nth(0).int() == 3 && r.nth(0).int() == 1 {
-                nontrivial = true;
-            }
-        }
         let _ = std::fs::remove_dir_all(&self.dir);
         let _ = std::fs::create_dir_all(&self.dir);
         let main = format!("{}/x.store.stam.csv", self.dir);
+        let two_phase = matches!(req.nth(0), Sx::A(_)) && !req.list().is_empty();
+        let mut first_save_ok = true;
+        if two_phase {
+            for op in req.nth(1).list() {
+                let r = apply(&mut store, op);
+                if op.nth(0).int() == 3 && r.nth(0).int() == 1 {
+                    nontrivial = true;
+                }
+            }
+            first_save_ok = matches!(
+                guard(|| {
+                    store.set_filename(&main);
+                    store.save()
+                }),
+                Some(Ok(()))
+            );
+            for op in req.nth(2).list() {
+                if op.nth(0).int() == 9 {
+                    // a key inserted on its own
+                    let set = crate::storegen::sid(op.nth(1).int());
+                    let key = crate::storegen::kid(op.nth(2).int());
+                    let _ = guard(|| {
+                        let ds: Result<&mut AnnotationDataSet, StamError> = store.get_mut(set.as_str());
+                        ds.and_then(|ds| ds.insert(DataKey::new(key)))
+                    });
+                    nontrivial = true;
+                } else {
+                    let _ = apply(&mut store, op);
+                }
+            }
+        } else {
+            for op in req.list() {
+                let r = apply(&mut store, op);
+                if op.nth(0).int() == 3 && r.nth(0).int() == 1 {
+                    nontrivial = true;
+                }
+            }
+        }
+
         let original = guard(|| content(&store)).unwrap_or_else(|| l(vec![a(-1)]));
-        let saved = guard(|| {
-            store.set_filename(&main);
-            store.save()
-        });
+        let saved = if !first_save_ok {
+            Some(Err(StamError::OtherError("the first save failed")))
+        } else if two_phase {
+            // the second save, in the same place
+            guard(|| store.save())
+        } else {
+            guard(|| {
+                store.set_filename(&main);
+                store.save()
+            })
+        };
         let rows = match &saved {
             None => l(vec![a(-1)]),
             Some(Err(_)) => l(vec![a(0)]),
@@ -322,6 +363,89 @@ pub fn history(rng: &mut Rng, cfg: &GenCfg, complete: bool) -> Vec<Sx> {
         }
     }
     ops
+}
+
+/// does every data builder of the operation name a data set that exists (the second save
+/// cannot place a data set or resource that was created after the first one)?
+fn stays_in_place(shadow: &Shadow, op: &Sx) -> bool {
+    let set_ok = |r: &Sx| -> bool {
+        if r.nth(0).int() == 0 {
+            shadow.sets.iter().any(|x| x.1 && x.0 == r.nth(1).int())
+        } else {
+            shadow.sets.get(r.nth(1).int() as usize).map(|x| x.1).unwrap_or(false)
+        }
+    };
+    match op.nth(0).int() {
+        0 | 1 => false,
+        2 => set_ok(op.nth(1).nth(0)),
+        3 => op.nth(3).list().iter().all(|d| set_ok(d.nth(0))),
+        _ => true,
+    }
+}
+
+/// (9 ops1 ops2): a history, then modifications of the saved store that stay within its data
+/// sets and resources: keys inserted on their own, data, annotations, removals
+pub fn saved_then_modified(rng: &mut Rng, cfg: &GenCfg) -> Sx {
+    let mut store = new_store();
+    let mut shadow = Shadow::default();
+    let mut ops1 = Vec::new();
+    let mut next = 19i64;
+    for _ in 0..(2 + rng.below(cfg.max_ops)) {
+        let op = complete_ids(&shadow.gen_op(rng, cfg), &mut next);
+        let _ = apply(&mut store, &op);
+        ops1.push(op);
+        if guard(|| shadow.sync(&store)).is_none() {
+            break;
+        }
+    }
+    let mut ops2 = Vec::new();
+    for _ in 0..rng.below(5) {
+        let live: Vec<i64> = shadow.sets.iter().filter(|x| x.1).map(|x| x.0).collect();
+        if !live.is_empty() && rng.chance(1, 3) {
+            // a bare key: new, or one the set has already
+            next += 1;
+            let tok = if rng.chance(1, 5) { rng.below(3) as i64 } else { next };
+            ops2.push(l(vec![a(9), a(*rng.pick(&live)), a(tok)]));
+            continue;
+        }
+        let op = complete_ids(&shadow.gen_op(rng, cfg), &mut next);
+        if !stays_in_place(&shadow, &op) {
+            continue;
+        }
+        let _ = apply(&mut store, &op);
+        ops2.push(op);
+        if guard(|| shadow.sync(&store)).is_none() {
+            break;
+        }
+    }
+    l(vec![a(9), l(ops1), l(ops2)])
+}
+
+/// fixed scenarios of a store saved twice: the base store with one annotation carrying data, then
+/// each single modification (and none at all)
+pub fn scoped_resave() -> Vec<Sx> {
+    let mut ops1 = base_ops();
+    ops1.push(l(vec![a(3), a(5), l(vec![a(0), by_id(0), cb(0), cb(3)]), l(vec![existing(0, 0), existing(0, 1)])]));
+    let mods: Vec<Vec<Sx>> = vec![
+        vec![],
+        vec![l(vec![a(9), a(0), a(7)])],
+        vec![l(vec![a(9), a(1), a(7)])],
+        vec![l(vec![a(9), a(0), a(0)])],
+        vec![l(vec![a(9), a(0), a(7)]), l(vec![a(9), a(1), a(8)])],
+        vec![l(vec![a(2), l(vec![by_id(0), by_id(30), by_id(0), l(vec![a(2), a(5)])])])],
+        vec![l(vec![a(2), l(vec![by_id(1), by_id(30), by_id(4), strv("new")])])],
+        vec![l(vec![a(3), a(6), l(vec![a(3), by_id(1)]), l(vec![existing(0, 1)])])],
+        vec![l(vec![a(3), a(6), l(vec![a(0), by_id(0), cb(2), ce(-1)]), l(vec![l(vec![by_id(1), by_id(31), by_id(5), strv("v")])])])],
+        vec![l(vec![a(4), by_id(5)])],
+        vec![l(vec![a(5), by_id(0), by_id(1), a(1)])],
+        vec![l(vec![a(5), by_id(0), by_id(1), a(0)])],
+        vec![l(vec![a(6), by_id(0), by_id(1), a(1)])],
+        vec![l(vec![a(9), a(0), a(7)]), l(vec![a(6), by_id(0), by_id(7), a(1)])],
+        vec![l(vec![a(7), by_id(1)])],
+        vec![l(vec![a(8), by_id(1)])],
+        vec![l(vec![a(9), a(1), a(7)]), l(vec![a(4), by_id(0)])],
+    ];
+    mods.into_iter().map(|m| l(vec![a(9), l(ops1.clone()), l(m)])).collect()
 }
 
 fn count_ops(out: &mut Out, ops: &[Sx]) {
@@ -500,6 +624,32 @@ pub fn generate(out: &mut Out, tier: &str, seed: u64) {
         });
         out.case(&i2, &o, nt, &req);
     }
+    for req in scoped_resave() {
+        let (i2, o, nt) = ctx.exec(&req);
+        out.count("scope_save_modify_save");
+        out.count(match o[2].nth(0).int() {
+            1 => "reload_ok",
+            0 => "reload_error",
+            _ => "reload_other",
+        });
+        out.case(&i2, &o, nt, &req);
+    }
+    let m = if thorough { 60000 } else { 2000 };
+    for i in 0..m {
+        let cfg = GenCfg { max_ops: if i % 4 == 0 { 30 } else { 12 }, removals: if i % 2 == 0 { 0 } else { 3 }, invalid: 20, values: true };
+        let req = saved_then_modified(&mut rng, &cfg);
+        count_ops(out, req.nth(1).list());
+        count_ops(out, &req.nth(2).list().iter().filter(|o| o.nth(0).int() != 9).cloned().collect::<Vec<_>>());
+        out.count_n("bare_keys_after_save", req.nth(2).list().iter().filter(|o| o.nth(0).int() == 9).count() as u64);
+        let (i2, o, nt) = ctx.exec(&req);
+        out.count("history_save_modify_save");
+        out.count(match o[2].nth(0).int() {
+            1 => "reload_ok",
+            0 => "reload_error",
+            _ => "reload_other",
+        });
+        out.case(&i2, &o, nt, &req);
+    }
     let n = if thorough { 300000 } else { 6000 };
     for i in 0..n {
         let cfg = GenCfg { max_ops: if i % 4 == 0 { 40 } else { 16 }, removals: if i % 3 == 0 { 0 } else { 3 }, invalid: 20, values: true };
@@ -520,5 +670,5 @@ pub fn generate(out: &mut Out, tier: &str, seed: u64) {
     }
 }
 
-pub const RULE: &str = "Exhaustive small scopes on a fixed base store (7-codepoint resource, empty resource, two data sets, a text annotation): each of the 13 simple selector forms (text in the four alignments, annotation, annotation with relative offset in the four alignments, resource, data set, key, data) x 0/1/2 data references x with/without public id; Multi/Composite/Directional over all ordered pairs (thorough: triples) of the 13 forms; internally compressed text and annotation ranges followed by every form; complex selectors without members; 16 awkward value texts (separators, quotes, line breaks, blanks, empty, look-alikes of other types). Then seeded random histories (storegen: <=6 resources of 0..8 codepoints of 1-4 bytes, <=4 datasets, all nine selector kinds incl. Multi/Composite/Directional with 1..4 mixed members and consecutive ranges that are stored compressed, begin- and end-aligned cursors, relative offsets, typed values incl. lists, references by id and handle, removals of every kind); two thirds of the histories give every annotation and data item a public id, one third leaves some without (known class Known_C15_tempid). The final store is saved with save() as STAM CSV into a scratch directory, the annotation table is read back as text and compared with the model's rows, the store is loaded with from_file and compared with the original by content (ids, key/value text, data references, selector kind, referenced items by rank, absolute ranges) and by the text every annotation addresses. One evaluation = one of the four observations of a history; non-trivial = the history has a successful annotate; distinct = distinct histories.";
+pub const RULE: &str = "Exhaustive small scopes on a fixed base store (7-codepoint resource, empty resource, two data sets, a text annotation): each of the 13 simple selector forms (text in the four alignments, annotation, annotation with relative offset in the four alignments, resource, data set, key, data) x 0/1/2 data references x with/without public id; Multi/Composite/Directional over all ordered pairs (thorough: triples) of the 13 forms; internally compressed text and annotation ranges followed by every form; complex selectors without members; 16 awkward value texts (separators, quotes, line breaks, blanks, empty, look-alikes of other types). Stores with a history of saves: a store is saved as STAM CSV, modified in memory (a key inserted on its own into an existing data set, data, annotations, removals of annotations / data / keys / resources / data sets; nothing that creates a new data set or resource), saved again in the same place and loaded: 17 fixed scenarios on the base store and seeded random ones (the files of the second save must describe the store in memory). Then seeded random histories (storegen: <=6 resources of 0..8 codepoints of 1-4 bytes, <=4 datasets, all nine selector kinds incl. Multi/Composite/Directional with 1..4 mixed members and consecutive ranges that are stored compressed, begin- and end-aligned cursors, relative offsets, typed values incl. lists, references by id and handle, removals of every kind); two thirds of the histories give every annotation and data item a public id, one third leaves some without (known class Known_C15_tempid). The final store is saved with save() as STAM CSV into a scratch directory, the annotation table is read back as text and compared with the model's rows, the store is loaded with from_file and compared with the original by content (ids, key/value text, data references, selector kind, referenced items by rank, absolute ranges) and by the text every annotation addresses. One evaluation = one of the four observations of a history; non-trivial = the history has a successful annotate; distinct = distinct histories.";
 pub const EXHAUSTIVE: bool = false;
